@@ -2,11 +2,12 @@
 import copy
 import hashlib
 import json
+import os
 import random
 
 from .. import common, flat, flatcheck, runner, aflat, anested
 from ..runner import Exploration, Failure
-from ..flat import TRIGGER
+from ..flat import TRIGGER, MAY
 from ..common import SLOT
 
 SIG_GATHER = 'C07.gather:raise-in-multi-callback-stage'
@@ -23,12 +24,14 @@ def classes(stream):
 
 def knobs_main():
     return flat.Knobs(max_models=2, p_cmds=0.3, p_raise=0.06, p_on_exception=0.3, p_unknown_event=0.05,
-                      p_bad_dest=0.03, p_share_cb=0.0, max_history=8)
+                      p_bad_dest=0.03, p_share_cb=0.0, max_history=8,
+                      hist_kinds=(TRIGGER, TRIGGER, TRIGGER, MAY, MAY), cmd_kinds=(TRIGGER, TRIGGER, MAY))
 
 
 def knobs_nested():
     return flat.Knobs(max_states=7, max_models=2, p_cmds=0.3, p_raise=0.0, p_on_exception=0.3,
-                      p_unknown_event=0.05, p_share_cb=0.0, max_history=8)
+                      p_unknown_event=0.05, p_share_cb=0.0, max_history=8,
+                      hist_kinds=(TRIGGER, TRIGGER, TRIGGER, MAY, MAY), cmd_kinds=(TRIGGER, TRIGGER, MAY))
 
 
 def knobs_nested_raise():
@@ -55,7 +58,7 @@ STREAMS = {
 def gen(stream, rng):
     cf = STREAMS[stream]
     d = aflat.decorate(flat.gen_flat(rng, cf['knobs']()), rng, raise_in_stage=cf['raise_in_stage'],
-                       per_model_multi=cf['tie'])
+                       per_model_multi=cf['tie'], keep_kinds=(TRIGGER, MAY))
     if cf['nested']:
         anested.impose_tree(d, rng)
     return d
@@ -230,7 +233,7 @@ class C07(runner.Check):
     level = 'proof'
     manifest = dict(
         level='proof', design='DESIGN.md 4/C07 + design_notes/C07.md',
-        text="Lean 4 theorem C07_flat_partial: the async flat engine model (gather as start-all / resume-all, AsyncCondition.check, "
+        text="Lean 4 theorems C07_flat_partial / C07_flat_polls (histories with awaited may_ polls; C07_may_agrees, C07_may_pure: the async probe answers like the sync one and leaves the engine untouched): the async flat engine model (gather as start-all / resume-all, AsyncCondition.check, _can_trigger, "
              "AsyncTransition.execute, AsyncEvent._trigger, _process_async with queued False/True/'model'), for every configuration, "
              "script, history of awaited triggers (incl. triggers awaited inside callbacks) and every plain/coroutine/suspending "
              "assignment, yields the same callback starts, arguments, states, return values, exception kinds and final states as the "
@@ -245,13 +248,14 @@ class C07(runner.Check):
              "alone in its stage; conditions sharing a stage are deterministic; queued='model' compared on one model. Hierarchical "
              "async classes: differential only (no Lean model of the nested async copies). Open finding: gather after a raise.",
         technique='Lean 4 proof (simulation async-vs-sync, unbounded) + differential correspondence + implementation-level differential monitor')
-    theorems = ('TM.C07_flat_partial', 'TM.C07_condition_awaitable', 'TM.C07_stage_barrier', 'TM.C07_history_barrier',
+    theorems = ('TM.C07_flat_partial', 'TM.C07_flat_polls', 'TM.C07_may_agrees', 'TM.C07_may_pure',
+                'TM.C07_condition_awaitable', 'TM.C07_stage_barrier', 'TM.C07_history_barrier', 'TM.C07_history_barrier_polls',
                 'TM.C07_stage_starts_in_order', 'TM.C07_flat_counterexample')
     rule = ('random flat configurations of the C01/C04/C05 generator (1-5 states, 1-3 events, <=3 candidates, <=3 conditions/unless, '
             'callbacks in every slot, raising callbacks, on_exception handlers, unknown events, unregistered destinations, 1-2 models, '
             'callbacks that await further triggers) and nested ones (a random tree over <=7 states: compound states with initial child, '
             'parallel states, transitions on leaves and ancestors) x every callback/condition independently plain function / coroutine / '
-            'coroutine suspending once / plain callable returning a scheduled Task / a later-resolved Future / an __await__ object x queued in {False, True, "model"} x histories of 1-8 awaited triggers; a case is non-trivial when '
+            'coroutine suspending once / plain callable returning a scheduled Task / a later-resolved Future / an __await__ object x queued in {False, True, "model"} x histories of 1-8 awaited triggers and may_<event>/may_trigger polls (also awaited from callbacks); a case is non-trivial when '
             'a transition executed and the raw async trace differs from the raw sync trace (so the observation map and the barrier did '
             'real work); distinct = different protocol encoding')
     trusted = ('hand-written async model lean/Model/Async.lean tied to AsyncMachine by trace equality on every generated Solo case',
@@ -270,7 +274,9 @@ class C07(runner.Check):
             'callback finish times are not compared with the synchronous order (only starts are); the barrier monitor checks them',
             'a raising callback with siblings in its stage (gather does not stop the siblings) is the one listed finding; any other '
             'difference is a violation',
-            'may_<event> (_can_trigger copies), dispatch, add/remove_model and cancellation are outside this property (C12, C10, C08)',
+            'awaited may_<event> / may_trigger polls are part of the histories (their answers and, above all, what later triggers '
+            'do after them are compared with the synchronous machine); whether may_ predicts the trigger is C12; dispatch, '
+            'add/remove_model and cancellation are outside this property (C10, C08)',
         ]
 
     def explore(self, tier, seed):
@@ -279,6 +285,7 @@ class C07(runner.Check):
             nch, per = cf[tier if tier in ('quick', 'thorough') else 'quick']
             payloads += [(seed, i, per, name) for i in range(nch)]
         ex = Exploration()
+        self.run_corpus(ex)
         for part in runner.parallel(chunk, payloads):
             ex.merge(part)
         done = set()
@@ -299,6 +306,22 @@ class C07(runner.Check):
         if corr and all(f.signature in known for f in ex.failures if f.kind == 'monitor'):
             ex.failures = corr
         return ex
+
+    def run_corpus(self, ex):
+        """minimised past disagreements (corpus/C07/*.json: {'stream', 'desc', 'why'}) run first on every run"""
+        cdir = os.path.join(common.CORPUS, 'C07')
+        for name in sorted(os.listdir(cdir)) if os.path.isdir(cdir) else []:
+            if not name.endswith('.json'):
+                continue
+            with open(os.path.join(cdir, name)) as fh:
+                case = json.load(fh)
+            d, fs, ra, rs = self.rejudge(case)
+            ex.evaluations += 1
+            ex.traces_validated += 1
+            stats(ex.stats, case['stream'], d, ra, rs)
+            st = ex.stats.setdefault('corpus', {})
+            st[name] = st.get(name, 0) + 1
+            ex.failures += fs
 
     def rejudge(self, case):
         d = anested.from_json(case['desc']) if STREAMS[case['stream']]['nested'] else aflat.from_json(case['desc'])
